@@ -129,39 +129,60 @@ class UnitEmitter:
         out.append(']}')
 
 def main():
-    src, mod, dst = sys.argv[1], sys.argv[2], sys.argv[3]
+    """gen_lean.py <file.units> <Mod> <lean/GlmVerif/Gen dir>
+    writes Gen/<Mod>/<family>.lean (units of one family + its key lookup) and Gen/<Mod>.lean (imports,
+    `lookup`, `all`).  One module per family so that a change of /repo only re-checks the tables of the
+    families whose traces changed."""
+    src, mod, gendir = sys.argv[1], sys.argv[2], sys.argv[3]
+    import os
     units = parse(src)
-    out = ['-- GENERATED by trace/gen_lean.py from the tracer output of /repo — do not edit',
-           'import GlmVerif.Core.Expr', 'import GlmVerif.Core.Attr', 'set_option maxRecDepth 100000',
-           'namespace Glm.Gen.%s' % mod, 'open Glm', '']
     fams = collections.OrderedDict()
     failed = []
     for u in units:
         if u['err']:
             failed.append((u['name'], u['err'])); continue
-        UnitEmitter(u).emit(out)
         m = re.match(r'^(.*?)((?:_\d+)*)$', u['name'])
         fam, keys = m.group(1), [int(k) for k in m.group(2).split('_')[1:]]
-        fams.setdefault((fam, len(keys)), []).append((keys, u['name']))
-    out.append('')
-    for (fam, nk), members in fams.items():
+        fams.setdefault(fam, []).append((keys, u))
+    d = os.path.join(gendir, mod)
+    os.makedirs(d, exist_ok=True)
+    written = set()
+
+    def put(path, text):
+        written.add(os.path.abspath(path))
+        try:
+            if open(path).read() == text: return
+        except FileNotFoundError: pass
+        open(path, 'w').write(text)
+
+    for fam, members in fams.items():
+        out = ['-- GENERATED by trace/gen_lean.py from the tracer output of /repo — do not edit',
+               'import GlmVerif.Core.Expr', 'import GlmVerif.Core.Attr', 'set_option maxRecDepth 100000',
+               'namespace Glm.Gen.%s' % mod, 'open Glm', '']
+        for keys, u in members: UnitEmitter(u).emit(out)
         out.append('def %s_L (ks : List Nat) : Unit :=' % fam)
         out.append('  match ks with')
-        for keys, name in members:
-            out.append('  | [%s] => %s' % (', '.join(str(k) for k in keys), name))
+        for keys, u in members:
+            out.append('  | [%s] => %s' % (', '.join(str(k) for k in keys), u['name']))
         out.append('  | _ => default')
+        out.append('end Glm.Gen.%s' % mod)
+        put(os.path.join(d, fam + '.lean'), '\n'.join(out) + '\n')
+    out = ['-- GENERATED by trace/gen_lean.py from the tracer output of /repo — do not edit']
+    for fam in fams: out.append('import GlmVerif.Gen.%s.%s' % (mod, fam))
+    out += ['namespace Glm.Gen.%s' % mod, 'open Glm', '']
     out.append('def lookup (fam : String) (ks : List Nat) : Unit :=')
-    for (fam, nk), members in fams.items():
+    for fam in fams:
         out.append('  if fam = "%s" then %s_L ks else' % (fam, fam))
     out.append('  default')
+    for fam in fams:
+        out.append('theorem lookup_%s : lookup "%s" = %s_L := by funext ks; simp [lookup]' % (fam, fam, fam))
     out.append('def all : List Unit := [%s]' % ', '.join(u['name'] for u in units if not u['err']))
     out.append('def failed : List (String × String) := [%s]' % ', '.join('("%s", "%s")' % f for f in failed))
     out.append('end Glm.Gen.%s' % mod)
-    text = '\n'.join(out) + '\n'
-    try:
-        if open(dst).read() == text: return
-    except FileNotFoundError: pass
-    open(dst, 'w').write(text)
+    put(os.path.join(gendir, mod + '.lean'), '\n'.join(out) + '\n')
+    for f in os.listdir(d):
+        if f.endswith('.lean') and os.path.abspath(os.path.join(d, f)) not in written:
+            os.remove(os.path.join(d, f))
 
 if __name__ == '__main__':
     main()
